@@ -270,9 +270,83 @@ __CPROVER_ensures(verif_visited == __CPROVER_old(verif_visited) + 1 && verif_las
 __CPROVER_assigns(verif_visited, verif_last_slot)
 ;
 void w_unsat_shell(void *cs, void *out)
+#if defined(UNSAT_GP)
+/* GradientProjection::destroyVPSC: the report list is optional; when present it is emptied first, then every constraint is examined */
+__CPROVER_requires(FRESH_VEC(cs, 1000000) && (out == (void *)0 || __CPROVER_is_fresh(out, sizeof(struct vec))) && verif_visited == 0)
+__CPROVER_ensures(out != (void *)0 ==> (verif_visited == VS(cs)->n && VS(out)->n == 0))
+__CPROVER_ensures(out == (void *)0 ==> verif_visited == 0)
+__CPROVER_assigns(verif_visited, verif_last_slot, verif_g_cs, verif_g_out; out != (void *)0: VS(out)->n)
+#else
 __CPROVER_requires(FRESH_VEC(cs, 1000000) && __CPROVER_is_fresh(out, sizeof(struct vec)) && verif_visited == 0)
 __CPROVER_ensures(verif_visited == VS(cs)->n)            /* every constraint is examined, none skipped */
 __CPROVER_assigns(verif_visited, verif_last_slot, verif_g_cs, verif_g_out)
+#endif
 ;
 void h_unsat_shell(void) { void *cs, *out; w_unsat_shell(cs, out); VERIF_CANARY; }
+#endif
+
+/* ------------------------------------------------------------ GradientProjection::runSolver, case Off (libcola/gradient_projection.cpp) */
+#if defined(JOB_runSolver)
+extern void *verif_g_vars, *verif_g_coords, *verif_g_solver;
+unsigned long verif_visited;
+_Bool verif_solved;
+_Bool w_IncSolver_solve(void *s)
+__CPROVER_requires(s == verif_g_solver)
+__CPROVER_ensures(verif_solved)
+__CPROVER_assigns(verif_solved)
+;
+void w_copy_visit(unsigned i)
+__CPROVER_requires(verif_solved && i == verif_visited)       /* positions are read back only after satisfy(), in order, none skipped */
+__CPROVER_ensures(verif_visited == __CPROVER_old(verif_visited) + 1)
+__CPROVER_assigns(verif_visited)
+;
+void w_runSolver_off(void *solver, void *vars, void *result)
+__CPROVER_requires(__CPROVER_is_fresh(vars, sizeof(struct vec)) && VS(vars)->n <= 0xffffffffUL && __CPROVER_is_fresh(result, sizeof(struct valarr)))
+__CPROVER_requires(verif_visited == 0 && !verif_solved)
+__CPROVER_ensures(verif_solved && verif_visited == VS(vars)->n)
+__CPROVER_assigns(verif_g_vars, verif_g_coords, verif_g_solver, verif_solved, verif_visited)
+;
+void h_runSolver(void) { void *s, *v, *r; w_runSolver_off(s, v, r); VERIF_CANARY; }
+#endif
+
+/* ------------------------------------------------------------ makeFeasible (libcola/colafd.cpp): the roll-back decision.
+ * VPSC flags whichever constraint it could not satisfy -- not necessarily the one added last.  After a tentative alternative is
+ * added and satisfy() has run, a flag on ANY constraint of the valid set must (a) be cleared and (b) make the alternative be
+ * rolled back; otherwise an earlier user constraint stays flagged, the solver ignores it from then on, and nothing reports it.
+ * BOUNDED: valid sets of 1..4 constraints. */
+#if defined(JOB_flag_scan)
+int w_flag_scan(void *valid, int *dim, int sat);
+void h_flag_scan(void)
+{
+  struct Constraint c[2][4]; void *d[2][4]; struct vec valid[2]; _Bool f0[4]; int dim; _Bool sat0; size_t n[2];
+  __CPROVER_assume((dim == 0 || dim == 1) && n[0] <= 4 && n[1] <= 4 && n[dim] >= 1);     /* the alternative just added is in the set */
+  for (int k = 0; k < 2; ++k) { for (int i = 0; i < 4; ++i) d[k][i] = &c[k][i]; valid[k].d = d[k]; valid[k].n = n[k]; valid[k].cap = 4; }
+  for (int i = 0; i < 4; ++i) f0[i] = c[dim][i].unsatisfiable;
+  _Bool any = 0;
+  for (size_t i = 0; i < 4; ++i) if (i < n[dim] && f0[i]) any = 1;
+  int r = w_flag_scan(valid, &dim, sat0 ? 1 : 0);
+  __CPROVER_assert((r != 0) == (sat0 && !any), "SPEC the alternative counts as satisfiable iff nothing failed before and NO constraint of the valid set is flagged");
+  for (size_t i = 0; i < 4; ++i) if (i < n[dim]) __CPROVER_assert(!c[dim][i].unsatisfiable, "SPEC every flag in the valid set is cleared before the next attempt");
+  VERIF_CANARY;
+}
+#endif
+
+#if defined(JOB_flag_scan0)
+extern void *verif_g_valid; extern int verif_g_dim; extern int verif_g_sat;
+extern void *verif_pool;                         /* ghost: the constraints of the valid set, element i of the set being object i of the pool */
+size_t verif_K_idx; _Bool verif_K_flag0;          /* ghost: one index into the set, and that constraint's flag on entry */
+#define VALID(v, dim) (&((struct vec *)(v))[dim])
+#define POOL ((struct Constraint *)verif_pool)
+int w_flag_scan0(void *valid, int dim, int sat, unsigned long K)
+__CPROVER_requires((dim == 0 || dim == 1) && (sat == 0 || sat == 1) && __CPROVER_is_fresh(valid, 2 * sizeof(struct vec)))
+__CPROVER_requires(VALID(valid, dim)->n >= 1 && VALID(valid, dim)->n <= 1000 && __CPROVER_is_fresh(VALID(valid, dim)->d, VALID(valid, dim)->n * sizeof(void *)))
+__CPROVER_requires(__CPROVER_is_fresh(verif_pool, VALID(valid, dim)->n * sizeof(struct Constraint)))
+__CPROVER_requires(K < VALID(valid, dim)->n && verif_K_idx == K && verif_K_flag0 == POOL[K].unsatisfiable)
+/* whichever constraint K of the valid set was flagged: the flag is cleared and the alternative does not count as satisfiable */
+__CPROVER_ensures(!POOL[K].unsatisfiable)
+__CPROVER_ensures(verif_K_flag0 ==> __CPROVER_return_value == 0)
+__CPROVER_ensures(sat == 0 ==> __CPROVER_return_value == 0)
+__CPROVER_assigns(verif_g_valid, verif_g_dim, verif_g_sat, __CPROVER_object_whole(verif_pool), __CPROVER_object_whole(VALID(valid, dim)->d))
+;
+void h_flag_scan0(void) { void *v; int d, s; unsigned long K; w_flag_scan0(v, d, s, K); VERIF_CANARY; }
 #endif
